@@ -101,7 +101,7 @@ func repr(v reflect.Value, depth int, seen map[uintptr]bool) string {
 		}
 		if isInfluxNode(v.Type()) && v.CanInterface() {
 			if e, ok := v.Interface().(influxql.Expr); ok {
-				return "expr:" + canonJSON(dump(e))
+				return "expr:" + meaningJSON(dump(e))
 			}
 			return "node:" + v.Interface().(fmt.Stringer).String()
 		}
